@@ -965,6 +965,17 @@ func c19Scripted(r *Run) {
 		`[{"op":"wait","table":"` + t0 + `","where":[],"columns":["name"],"until":"==","rows":[{"name":"a"}]}]`,
 		`[{"op":"wait","table":"` + t0 + `","timeout":0,"until":"==","columns":["nosuchcolumn"],"rows":[{"nosuchcolumn":1}]}]`,
 		`[{"op":"insert","table":"` + t0 + `","row":{"name":null}}]`,
+		`[{"op":"insert","table":"` + t0 + `","row":{"n":null}}]`,
+		`[{"op":"select","table":"` + t0 + `","where":[["n","==",null]]}]`,
+		`[{"op":"delete","table":"` + t0 + `","where":[["n","<",null]]}]`,
+		`[{"op":"update","table":"` + t0 + `","where":[],"row":{"n":null}}]`,
+		`[{"op":"mutate","table":"` + t0 + `","where":[],"mutations":[["n","+=",null]]}]`,
+		`[{"op":"mutate","table":"` + t0 + `","where":[],"mutations":[["n","*=",0]]}]`,
+		`[{"op":"insert","table":"` + t0 + `","row":{"is":["set",[1,null]]}}]`,
+		`[{"op":"insert","table":"` + t0 + `","row":{"im":["map",[[1,null]]]}}]`,
+		`[{"op":"insert","table":"` + t0 + `","row":{"im":["map",[[null,1]]]}}]`,
+		`[{"op":"insert","table":"` + t0 + `","row":{"bs":["set",[null]]}}]`,
+		`[{"op":"insert","table":"` + t0 + `","row":{"tag":["set",[null]]}}]`,
 		`[{"op":"insert","table":"` + t0 + `","uuid":"not-a-uuid","row":{}}]`,
 		`[{"op":"delete","table":"` + t0 + `","where":[["_uuid","==","notauuidvalue"]]}]`,
 		`[{"op":"delete","table":"` + t0 + `","where":[["_uuid","includes",["set",[]]]]}]`,
